@@ -1,35 +1,37 @@
-// SimGOMP: link-time replacement of the five libgomp entry points pomerol's objects reference
-// (GOMP_parallel, GOMP_barrier, omp_get_num_threads, omp_get_thread_num, omp_get_max_threads).
-// The outlined body of a parallel region is run once per logical thread, in a seeded order, on the
-// calling rank's stack. See DESIGN.md §2.5.
+// SimGOMP: link-time replacement of libgomp. pomerol's objects reference five entry points (GOMP_parallel,
+// GOMP_barrier, omp_get_num_threads, omp_get_thread_num, omp_get_max_threads); the rest is provided so that a realistic
+// edit of the library (another schedule clause, a critical section, a reduction, per-thread buffers) still links and runs.
+// The outlined body of a parallel region is run once per logical thread, in a seeded order, on the calling rank's stack;
+// dynamically scheduled loops hand out chunks to the logical threads in seeded portions. See DESIGN.md §2.5.
 #include "sim.hpp"
 #include <vector>
+#include <cstdint>
 
-extern "C" {
+namespace {
+struct LoopState { long next = 0, end = 0, incr = 1, chunk = 1; bool active = false; int last_tid = 0; long region = -1; };
+long g_region = 0;              // counts parallel regions; a work-sharing loop belongs to the region that initialised it
+LoopState g_loop;               // one world runs at a time and logical threads are serialised: one loop is active at most
+int g_requested_threads = 0;    // omp_set_num_threads() of the running rank (not preserved across ranks: pomerol never calls it)
 
-int omp_get_num_threads(void) { sim::World* w = sim::cur(); return (w && sim::cur_rank() >= 0) ? w->omp_nthr : 1; }
-int omp_get_thread_num(void) { sim::World* w = sim::cur(); return (w && sim::cur_rank() >= 0) ? w->omp_tid : 0; }
-// 1 keeps Eigen's own OpenMP GEMM path sequential (it is sequential in the shipped build too for the block sizes explored)
-int omp_get_max_threads(void) { return 1; }
-int omp_get_num_procs(void) { return 16; }
-int omp_in_parallel(void) { return omp_get_num_threads() > 1; }
-void omp_set_num_threads(int) {}
-double omp_get_wtime(void) { sim::World* w = sim::cur(); return (w && sim::cur_rank() >= 0) ? 1e-6 * w->vt(sim::cur_rank()) : 0.0; }
+sim::World* W() { sim::World* w = sim::cur(); return (w && sim::cur_rank() >= 0) ? w : nullptr; }
 
-void GOMP_barrier(void) {
-    // Orphaned barrier (outside a team) binds to the implicit team of one thread: no-op, as in libgomp.
-    // Inside a simulated team the logical threads are serialised, so a barrier inside a region cannot be honoured.
-    sim::World* w = sim::cur();
-    if (w && sim::cur_rank() >= 0 && w->omp_nthr > 1)
-        w->fail("sim-unsupported", "GOMP_barrier inside a simulated parallel region (logical threads are serialised)");
+bool loop_next(long* istart, long* iend);
+
+int team_size(sim::World* w, unsigned num_threads) {
+    int T = num_threads ? (int)num_threads : (g_requested_threads > 0 ? g_requested_threads : w->opt().omp_threads);
+    return T < 1 ? 1 : T;
 }
 
-void GOMP_parallel(void (*fn)(void*), void* data, unsigned num_threads, unsigned /*flags*/) {
-    sim::World* w = sim::cur();
-    if (!w || sim::cur_rank() < 0 || w->omp_nthr > 1) { fn(data); return; } // outside simulation / nested: team of one
-    int T = num_threads ? (int)num_threads : w->opt().omp_threads;
-    if (T < 1) T = 1;
+// runs fn once per logical thread in a seeded order
+void loop_init(long start, long end, long incr, long chunk) {
+    g_loop.next = start; g_loop.end = end; g_loop.incr = incr ? incr : 1; g_loop.chunk = chunk > 0 ? chunk : 1; g_loop.active = true; g_loop.region = g_region;
+}
+
+void run_team(sim::World* w, void (*fn)(void*), void* data, int T, bool combined_loop = false, long ls = 0, long le = 0, long li = 1, long lc = 1) {
     w->yield_point(sim::EV_OMP, T);
+    g_region++;
+    g_loop.active = false;
+    if (combined_loop) loop_init(ls, le, li, lc);
     w->stats().omp_regions++;
     if (T > w->stats().omp_max_team) w->stats().omp_max_team = T;
     std::vector<int> order(T);
@@ -39,13 +41,124 @@ void GOMP_parallel(void (*fn)(void*), void* data, unsigned num_threads, unsigned
         for (int i = T - 1; i > 0; i--) { int j = w->choose(sim::CK_OMPORD, i + 1); if (j) { std::swap(order[i], order[i - j]); moved = true; } }
         if (moved) w->stats().omp_shuffled++;
     }
-    int save_tid = w->omp_tid, save_n = w->omp_nthr;
-    struct Restore { sim::World* w; int t, n; ~Restore() { w->omp_tid = t; w->omp_nthr = n; } } restore{w, save_tid, save_n};
+    struct Restore { sim::World* w; int t, n; ~Restore() { w->omp_tid = t; w->omp_nthr = n; } } restore{w, w->omp_tid, w->omp_nthr};
     w->omp_nthr = T;
+    g_loop.last_tid = order[T - 1];
     for (int i = 0; i < T; i++) {
         w->omp_tid = order[i];
         fn(data);
     }
+    g_loop.active = false;
 }
+
+void parallel_loop(void (*fn)(void*), void* data, unsigned num_threads, long start, long end, long incr, long chunk) {
+    sim::World* w = W();
+    if (!w || w->omp_nthr > 1) { g_region++; loop_init(start, end, incr, chunk); g_loop.last_tid = w ? w->omp_tid : 0; fn(data); g_loop.active = false; return; }
+    run_team(w, fn, data, team_size(w, num_threads), true, start, end, incr, chunk);
+}
+
+// work-sharing loop inside an already running region (#pragma omp for schedule(dynamic) within #pragma omp parallel):
+// the first logical thread to arrive initialises the loop, the others join it
+bool loop_start(long start, long end, long incr, long chunk, long* istart, long* iend) {
+    if (!g_loop.active || g_loop.region != g_region) {
+        sim::World* w = W();
+        if (!w || w->omp_nthr <= 1) { g_region++; g_loop.last_tid = w ? w->omp_tid : 0; }
+        loop_init(start, end, incr, chunk);
+    }
+    return loop_next(istart, iend);
+}
+
+bool loop_next(long* istart, long* iend) {
+    if (!g_loop.active) return false;
+    long remaining = g_loop.incr > 0 ? (g_loop.end - g_loop.next + g_loop.incr - 1) / g_loop.incr : (g_loop.next - g_loop.end - g_loop.incr - 1) / (-g_loop.incr);
+    if (remaining <= 0) return false;
+    sim::World* w = W();
+    // a logical thread other than the last one may stop taking chunks at a seeded point (the others were faster)
+    if (w && w->omp_nthr > 1 && w->omp_tid != g_loop.last_tid && w->choose(sim::CK_OMPTEAM, 4) == 3) return false;
+    long n = remaining < g_loop.chunk ? remaining : g_loop.chunk;
+    *istart = g_loop.next;
+    *iend = g_loop.next + n * g_loop.incr;
+    g_loop.next = *iend;
+    return true;
+}
+} // namespace
+
+extern "C" {
+
+int omp_get_num_threads(void) { sim::World* w = W(); return w ? w->omp_nthr : 1; }
+int omp_get_thread_num(void) { sim::World* w = W(); return w ? w->omp_tid : 0; }
+// as in libgomp: an upper bound of the team size of the next parallel region (per-thread buffers are sized with it).
+// Eigen's own OpenMP GEMM (which spin-waits between threads and cannot run on serialised logical threads) is switched off
+// at compile time with -DEIGEN_DONT_PARALLELIZE; it is only reachable for blocks larger than about 47x47 anyway.
+int omp_get_max_threads(void) { sim::World* w = W(); return w ? team_size(w, 0) : 1; }
+int omp_get_num_procs(void) { return 16; }
+int omp_in_parallel(void) { return omp_get_num_threads() > 1; }
+void omp_set_num_threads(int n) { g_requested_threads = n; }
+int omp_get_dynamic(void) { return 0; }
+void omp_set_dynamic(int) {}
+int omp_get_nested(void) { return 0; }
+int omp_get_level(void) { return omp_get_num_threads() > 1 ? 1 : 0; }
+int omp_get_thread_limit(void) { return 1 << 20; }
+double omp_get_wtime(void) { sim::World* w = W(); return w ? 1e-6 * w->vt(sim::cur_rank()) : 0.0; }
+double omp_get_wtick(void) { return 1e-6; }
+// locks: logical threads are serialised, a lock is always free
+typedef struct { unsigned char x[4]; } sim_omp_lock_t;
+void omp_init_lock(sim_omp_lock_t*) {}
+void omp_destroy_lock(sim_omp_lock_t*) {}
+void omp_set_lock(sim_omp_lock_t*) {}
+void omp_unset_lock(sim_omp_lock_t*) {}
+int omp_test_lock(sim_omp_lock_t*) { return 1; }
+
+void GOMP_barrier(void) {
+    // Orphaned barrier (outside a team) binds to the implicit team of one thread: no-op, as in libgomp.
+    // Inside a simulated team the logical threads are serialised, so a barrier inside a region cannot be honoured.
+    sim::World* w = W();
+    if (w && w->omp_nthr > 1)
+        w->fail("sim-unsupported", "GOMP_barrier inside a simulated parallel region (logical threads are serialised)");
+}
+
+void GOMP_parallel(void (*fn)(void*), void* data, unsigned num_threads, unsigned /*flags*/) {
+    sim::World* w = W();
+    if (!w || w->omp_nthr > 1) { fn(data); return; } // outside simulation / nested: team of one
+    run_team(w, fn, data, team_size(w, num_threads));
+}
+
+// mutual exclusion is trivially satisfied by the serialised logical threads
+void GOMP_critical_start(void) {}
+void GOMP_critical_end(void) {}
+void GOMP_critical_name_start(void**) {}
+void GOMP_critical_name_end(void**) {}
+void GOMP_atomic_start(void) {}
+void GOMP_atomic_end(void) {}
+bool GOMP_single_start(void) { sim::World* w = W(); return !w || w->omp_nthr <= 1 || w->omp_tid == 0; }
+void GOMP_ordered_start(void) {}
+void GOMP_ordered_end(void) {}
+
+// dynamically / guided / runtime scheduled loops (schedule(dynamic), schedule(guided), schedule(runtime), schedule(auto))
+#define SIM_PARALLEL_LOOP(name) \
+    void name(void (*fn)(void*), void* data, unsigned num_threads, long start, long end, long incr, long chunk, unsigned /*flags*/) { parallel_loop(fn, data, num_threads, start, end, incr, chunk); }
+SIM_PARALLEL_LOOP(GOMP_parallel_loop_dynamic)
+SIM_PARALLEL_LOOP(GOMP_parallel_loop_guided)
+SIM_PARALLEL_LOOP(GOMP_parallel_loop_nonmonotonic_dynamic)
+SIM_PARALLEL_LOOP(GOMP_parallel_loop_nonmonotonic_guided)
+void GOMP_parallel_loop_runtime(void (*fn)(void*), void* data, unsigned nt, long s, long e, long i, unsigned) { parallel_loop(fn, data, nt, s, e, i, 1); }
+void GOMP_parallel_loop_nonmonotonic_runtime(void (*fn)(void*), void* data, unsigned nt, long s, long e, long i, unsigned) { parallel_loop(fn, data, nt, s, e, i, 1); }
+void GOMP_parallel_loop_maybe_nonmonotonic_runtime(void (*fn)(void*), void* data, unsigned nt, long s, long e, long i, unsigned) { parallel_loop(fn, data, nt, s, e, i, 1); }
+bool GOMP_loop_dynamic_next(long* s, long* e) { return loop_next(s, e); }
+bool GOMP_loop_guided_next(long* s, long* e) { return loop_next(s, e); }
+bool GOMP_loop_runtime_next(long* s, long* e) { return loop_next(s, e); }
+bool GOMP_loop_nonmonotonic_dynamic_next(long* s, long* e) { return loop_next(s, e); }
+bool GOMP_loop_nonmonotonic_guided_next(long* s, long* e) { return loop_next(s, e); }
+bool GOMP_loop_nonmonotonic_runtime_next(long* s, long* e) { return loop_next(s, e); }
+bool GOMP_loop_maybe_nonmonotonic_runtime_next(long* s, long* e) { return loop_next(s, e); }
+bool GOMP_loop_dynamic_start(long s, long e, long i, long c, long* is, long* ie) { return loop_start(s, e, i, c, is, ie); }
+bool GOMP_loop_guided_start(long s, long e, long i, long c, long* is, long* ie) { return loop_start(s, e, i, c, is, ie); }
+bool GOMP_loop_runtime_start(long s, long e, long i, long* is, long* ie) { return loop_start(s, e, i, 1, is, ie); }
+bool GOMP_loop_nonmonotonic_dynamic_start(long s, long e, long i, long c, long* is, long* ie) { return loop_start(s, e, i, c, is, ie); }
+bool GOMP_loop_nonmonotonic_guided_start(long s, long e, long i, long c, long* is, long* ie) { return loop_start(s, e, i, c, is, ie); }
+bool GOMP_loop_nonmonotonic_runtime_start(long s, long e, long i, long* is, long* ie) { return loop_start(s, e, i, 1, is, ie); }
+bool GOMP_loop_maybe_nonmonotonic_runtime_start(long s, long e, long i, long* is, long* ie) { return loop_start(s, e, i, 1, is, ie); }
+void GOMP_loop_end(void) {}
+void GOMP_loop_end_nowait(void) {}
 
 } // extern "C"
